@@ -13,7 +13,7 @@ func init() {
 				for m := int64(0); m < 43; m++ {
 					cs = append(cs, mkCase("", "c07", "HVFS", cfg, kind, m))
 				}
-				for st := int64(0); st < 7; st++ {
+				for st := int64(0); st < 8; st++ {
 					for m := int64(0); m < 17; m++ {
 						cs = append(cs, mkCase("", "c07", "HFile", cfg, kind, st, m, 0))
 						if tier == "thorough" || kind <= 1 {
@@ -21,6 +21,12 @@ func init() {
 						}
 					}
 				}
+			}
+			// FailFS with one injected fault, a file larger than ReadFile's first read among the operands
+			bcfg := cfg
+			bcfg.Budget = 3000000
+			for m := int64(0); m < 43; m++ {
+				cs = append(cs, mkCase("", "c07", "HFaulty", bcfg, m))
 			}
 			// directory-handle histories interleaved with namespace changes
 			hist := int64(4)
@@ -54,10 +60,10 @@ func init() {
 			sched := pairCases(scfg, []int64{0, 1}, sops)
 			return []group{{Tags: "", Pkgs: []string{"c07"}, Cases: cs}, {Tags: "", Pkgs: []string{"c06"}, Cases: sched}}
 		},
-		Reach:       []string{"vfs-call", "file-call", "idm-call", "concurrent"},
+		Reach:       []string{"vfs-call", "file-call", "idm-call", "concurrent", "faulty", "dir-history"},
 		Explanation: "Bounded symbolic execution of every exported VFS method (43), File method (17) and MemIdm method (10) of MemFS, OrefaFS, RoFS, BasePathFS and FailFS with adversarial operands (root, directory and descendant, identical source and destination, empty, relative, unclean, missing, below-a-file, symlink) and fully symbolic integers (flags, modes, uid/gid, sizes, offsets, whence, counts); assertion: the call returns without panic; a single-thread deadlock (re-locking a held mutex) and a path exceeding the instruction budget are reported by the engine; probe calls after each call detect locks left held. Directory handles additionally go through bounded histories of ReadDir/Readdirnames with symbolic counts interleaved with calls that add or remove entries of the open directory. (b) Schedules: the two-goroutine programs of the C06 harness (pairs of namespace calls on one shared tree) under every interleaving at lock granularity within the pre-emption bound: a state in which every live goroutine waits for a lock is reported as a deadlock.",
 		Bounds: func(tier string) map[string]any {
-			return map[string]any{"calls_per_history": "1 call (+ optional Seek before File methods) + probe calls; directory handles: histories of " + map[string]string{"quick": "4", "thorough": "5"}[tier] + " steps from {ReadDir(n), Readdirnames(n), add entries, remove entries}, n in -1..3", "operand_universe": 14, "handle_states": 7, "buffer_lengths": "0..2", "idm_name_length": map[string]int{"quick": 2, "thorough": 3}[tier], "instruction_budget": 400000,
+			return map[string]any{"calls_per_history": "1 call (+ optional Seek before File methods) + probe calls; directory handles: histories of " + map[string]string{"quick": "4", "thorough": "5"}[tier] + " steps from {ReadDir(n), Readdirnames(n), add entries, remove entries}, n in -1..3", "operand_universe": 14, "handle_states": 8, "buffer_lengths": "0..2", "idm_name_length": map[string]int{"quick": 2, "thorough": 3}[tier], "instruction_budget": 400000,
 				"outside": "longer histories; allocations above 64 elements with symbolic size (CUT); concurrent schedules (C06/C08 harnesses)"}
 		},
 		Assumptions: []string{"os.nextRandom stub: one decimal digit in {0,1}"},
